@@ -765,6 +765,10 @@ def check_C09(tier, seed):
     })
     out.assumptions = ["schedules are sampled (pool sizes x jitter seeds), not enumerated, on the implementation side; the exhaustive part "
                        "is the TLA+ model of the parallel fragment", "TLC evaluates VParTrace correctly"]
+    # repeated runs in one process: every (input, mask) of the tess recorder is built twice and must give bitwise the same result
+    res, verdicts, trace_file = tess_pipeline(tier, seed, "C09")
+    apply_tess(out, res, verdicts, trace_file, "C09")
+    out.coverage["rule"] += "; every (input, mask) of the tess recorder built twice in a row: bitwise equal"
     return out.finish()
 
 
